@@ -184,7 +184,7 @@ func runOne(ctx context.Context, sp solverSpec, file string, timeoutS int) Solve
 	t0 := time.Now()
 	_ = cmd.Run()
 	secs := time.Since(t0).Seconds()
-	o := out.String()
+	o := stripWarnings(out.String())
 	first := strings.TrimSpace(strings.SplitN(o, "\n", 2)[0])
 	if hasScriptError(o) {
 		return SolverResult{Status: "error", Solver: sp.name, Secs: secs, Output: o}
@@ -201,6 +201,20 @@ func runOne(ctx context.Context, sp solverSpec, file string, timeoutS int) Solve
 		st = "timeout"
 	}
 	return SolverResult{Status: st, Solver: sp.name, Secs: secs, Output: o}
+}
+
+func stripWarnings(o string) string {
+	if !strings.Contains(o, "WARNING") {
+		return o
+	}
+	var keep []string
+	for _, l := range strings.Split(o, "\n") {
+		if strings.HasPrefix(l, "WARNING") {
+			continue
+		}
+		keep = append(keep, l)
+	}
+	return strings.Join(keep, "\n")
 }
 
 // hasScriptError: any solver error other than asking for a model after unsat.
